@@ -20,7 +20,9 @@ RULE = (
     "directories; fault plans: enumerated single-fault plans (enum=single: every job x phase in "
     "{schedule,transfer,execute} x {soft, fail-stop destroying the job's own directories} x count 1..3) for 6 small "
     "shapes, plus seeded multi-fault plans (1..4 (job,phase) entries, counts 1..3, fail-stop optionally destroying "
-    "the output directories of seed-chosen ancestor jobs); RollbackFailureManager with max_retries=12. Oracle: run "
+    "the output directories of seed-chosen ancestor jobs), plus enum=exctype: every (job, phase) of two shapes failing once with "
+    "a timeout (asyncio.TimeoutError, as connector.run(timeout=..) raises), an OS-level error or a RuntimeError instead of "
+    "a WorkflowExecutionException; RollbackFailureManager with max_retries=12. Oracle: run "
     "completes (no quiescence, no raise), output contents equal the sequential reference, every step COMPLETED, "
     "provenance of all workflows complete/acyclic (C07 oracle). non-trivial = at least one injected fault fired; "
     "distinct = distinct loop digests"
@@ -56,6 +58,13 @@ def cases(tier):
         for fk in ("soft", "stop"):
             for then_exec in (0, 1):
                 out.append({"enum": "allinputs", "kind": kind, "fault_kind": fk, "then_exec": then_exec})
+    # the failure surfaces as another exception type than WorkflowExecutionException: a timeout (what connector.run(timeout=..)
+    # and connection attempts raise), an OS-level error, any other error - every (job, phase, type) of two small shapes
+    for si in (1, 2):
+        for ji in range(len(S.jobs_of(ENUM_SHAPES[si]))):
+            for phase in S.PHASES:
+                for exc in ("timeout", "oserror", "runtime"):
+                    out.append({"enum": "exctype", "shape": si, "job": ji, "phase": phase, "exc": exc})
     return out
 
 
@@ -84,6 +93,10 @@ def run(sim, params):
     if params.get("enum") == "single":
         shape = ENUM_SHAPES[params["shape"]]
         faults = list(S.single_fault_plans(shape, counts=tuple(range(1, params["counts"] + 1))))[params["fault"]]
+    elif params.get("enum") == "exctype":
+        shape = ENUM_SHAPES[params["shape"]]
+        job = sorted(S.jobs_of(shape))[params["job"]]
+        faults = {(params["phase"], job): [{"kind": "soft", "lose": [], "exc": params["exc"]}]}
     elif params.get("enum") == "allinputs":
         shape = {"kind": params["kind"]}
         n = len(S.jobs_of(shape)["/D/0"])
